@@ -168,6 +168,14 @@ type sim struct {
 
 func (s *sim) seq() int { s.nseq++; return s.nseq }
 
+// big picks a bound by tier (bigger bounds in thorough).
+func (s *sim) big(quick, thorough int) int {
+	if s.c.Tier == "thorough" {
+		return thorough
+	}
+	return quick
+}
+
 func clone(b []byte) []byte {
 	if b == nil {
 		return nil
@@ -301,7 +309,7 @@ func (s *sim) setup() bool {
 			s.cf.Prefixes = append(s.cf.Prefixes, hx(p))
 		}
 	}
-	nk := t.Range(3, 22)
+	nk := t.Range(3, s.big(22, 40))
 	seen := map[string]bool{}
 	add := func(k []byte) {
 		if !seen[string(k)] {
@@ -343,7 +351,7 @@ func (s *sim) setup() bool {
 	if quick {
 		s.cf.Ops = t.Range(0, 100)
 	} else {
-		s.cf.Ops = t.Range(0, 420)
+		s.cf.Ops = t.Range(0, 700)
 	}
 	s.cf.WriteBuffer = []int{1 << 20, 256 << 10, 64 << 10}[t.Choose(3)]
 	s.cf.BlockSize = []int{8192, 1024}[t.Choose(2)]
@@ -1081,7 +1089,7 @@ func (s *sim) closeIterState(st *iterState) {
 
 func (s *sim) opIter() {
 	sp := s.genIterSpec()
-	hold := s.t.Bool(300) && len(s.held) < 3
+	hold := s.t.Bool(300) && len(s.held) < s.big(3, 5)
 	first := 1 << 30
 	if hold {
 		first = s.t.Range(0, 3)
@@ -1256,7 +1264,7 @@ func (s *sim) scanAll(en *eng, e engine.KVEngine) ([]kv, error) {
 // ---------------------------------------------------------------- environment
 
 func (s *sim) opReopen() {
-	if s.nReopen >= 3 {
+	if s.nReopen >= s.big(3, 8) {
 		return
 	}
 	s.nReopen++
@@ -1324,7 +1332,7 @@ func (s *sim) opCompact() {
 }
 
 func (s *sim) opCkptSave() {
-	if s.nCkpt >= 2 {
+	if s.nCkpt >= s.big(2, 4) {
 		return
 	}
 	s.nCkpt++
